@@ -15,7 +15,7 @@ ctx = Ctx("C01", Index("/repo", overlay), "quick")
 s = ctx.summ.of_func(mod, q)
 print("params", s.params)
 for e in s.events:
-    print(f"  {e.kind:8} L{e.lineno} live={show(e.live)[:160]}\n           term={show(e.term)[:300]}")
+    print(f"  {e.kind:8} L{e.lineno} live={show(e.live)[:160]}\n           term={show(e.term)[:int(os.environ.get("W", 300))]}")
 for lid, L in s.loops.items():
     print("  loop", lid, L.target_text, "in", show(L.iter)[:100], "conds", [show(c)[:60] for c in L.conds])
 print("unpacked", {show(k)[:40]: v for k, v in s.unpacked.items()})
